@@ -19,23 +19,25 @@ TRUSTED = ["networkx DiGraph / topological_sort / predecessors / in_edges taken 
            "read off the loop by hand"]
 SPOT_N = 10   # the oracle over up to 4096 orientations is slow under vm_compute
 ASSUMPTIONS = ["input is a networkx.DiGraph that is acyclic", "int labels (label families: C15)"]
-TECHNIQUE = ("Coq proof (termination + structure unbounded; essential-graph clause by kernel computation over all DAGs n<=4 x all "
-             "topological orders; oracle reflection and 'equal essential graphs iff Markov equivalent' unbounded) + extracted-model correspondence")
-LEVEL_TEXT = ("Unbounded theorems: cpdag_total (the labelling loop never exhausts its fuel, any graph, any node order); cpdag_structure "
-              "(for every DAG and every topological order the result has exactly the DAG's nodes, directed and undirected edges are "
-              "disjoint subsets of the DAG's edges covering all of them, i.e. same skeleton, directed edges keep the DAG's orientation); "
-              "essential_oracle_correct (the brute-force oracle over all orientations of the skeleton decides 'a->b is in every "
-              "Markov-equivalent DAG'); essential_classifies (equal essential graphs iff Markov equivalent, about the spec). "
-              "Bounded: cpdag_essential_bounded_4 (kernel computation): for all 543 labelled DAGs on 4 nodes (and all on fewer; "
-              "enumeration proved complete, dags_enumeration_complete) and EVERY topological order, directed edges = essential edges. "
-              "Beyond n=4 the clause 'directed iff essential' is observed by correspondence only (model = oracle = implementation on "
-              "every generated case with |E|<=12, incl. all 29281 five-node DAGs in the thorough tier).")
-LEVEL_NOTE = ("Chickering's correctness proof (paper-length induction over the edge order) is not formalised; the full statement is "
-              "kept as cpdag_essential_stmt in C04/Spec.v. n=5 by kernel computation was estimated at hours of CPU and left out. "
-              "The bounded theorem is stated for the canonical edge list of each DAG on nodes 0..n-1. order_edges is modelled by its "
-              "closed form (targets from last to first in the topological order, sources ascending), label_edges loop by loop with fuel. "
-              "acyclic is stated as existence of a topological numbering. The implementation is tied to the model at networkx's actual "
-              "topological order of the very DiGraph it receives.")
+TECHNIQUE = ("Coq proof (termination, structure, v-structure edges compelled, invariance under edge-list order: unbounded; "
+             "'directed iff essential' by kernel computation for every DAG on <=5 nodes x every topological order; oracle reflection "
+             "and 'equal essential graphs iff Markov equivalent' unbounded) + extracted-model correspondence")
+LEVEL_TEXT = ("Unbounded theorems: cpdag_total (the labelling loop never exhausts its fuel); cpdag_structure (for every DAG and every "
+              "topological order: exactly the DAG's nodes, directed/undirected edges partition the DAG's edge set = same skeleton, "
+              "directed edges keep the DAG's orientation); cpdag_vstructs_compelled + cpdag_vstructs (every edge of a v-structure is "
+              "directed; the CPDAG has exactly the DAG's v-structures, is a well-formed PDAG and the DAG is a consistent extension of "
+              "it); cpdag_model_invariant (the result depends on the edge list only as a set); essential_oracle_correct; "
+              "essential_classifies (equal essential graphs iff Markov equivalent, about the spec). "
+              "Bounded: cpdag_essential_bounded_5 — for EVERY DAG on the nodes 0..n-1, n<=5 (29 281 DAGs at n=5; any edge-list order) "
+              "and EVERY topological order, directed edges = edges present in every Markov-equivalent DAG (Prop `essential`); kernel "
+              "computation in 8 shards (~75 CPU-s), table-driven per skeleton, proved to imply the naive oracle, enumeration proved "
+              "complete. Beyond n=5 'directed iff essential' is observed by correspondence only (oracle up to |E|<=12).")
+LEVEL_NOTE = ("Chickering's correctness proof for Algorithm 5 beyond v-structure edges (compelled => essential for the propagated "
+              "labels, reversible => not essential) is not formalised: it needs the transformational characterisation of equivalence; "
+              "the full statement is cpdag_essential_stmt in C04/Spec.v. The bounded theorem requires the node list to be "
+              "[0;..;n-1]. order_edges is modelled by its closed form (targets from last to first in the topological order, sources "
+              "ascending), label_edges loop by loop with fuel. acyclic is stated as existence of a topological numbering. The "
+              "implementation is tied to the model at networkx's actual topological order of the very DiGraph it receives.")
 
 
 LAB_FAMILIES = ["str", "tuple", "bigint", "frozenset", "int257"]
